@@ -225,6 +225,7 @@ func (t *tfunc) expr(e ast.Expr, want types.Type) string {
 	tv := info.Types[e]
 	if tv.Value != nil {
 		if s, ok := constLit(tv.Value); ok {
+			t.noteConst(e, s)
 			return s
 		}
 		t.bad(e, "constant of an unsupported kind")
@@ -584,4 +585,31 @@ func zeroOf(ty types.Type) string {
 		}
 	}
 	return "default"
+}
+
+// noteConst: a named constant of a named integer type of the repo (an enum member) is also emitted as
+// `def K_<pkg>_<name>`, so that abstraction functions in the lemma files can name it instead of its value.
+func (t *tfunc) noteConst(e ast.Expr, val string) {
+	var id *ast.Ident
+	switch v := e.(type) {
+	case *ast.Ident:
+		id = v
+	case *ast.SelectorExpr:
+		id = v.Sel
+	default:
+		return
+	}
+	c, ok := t.info().Uses[id].(*types.Const)
+	if !ok || c.Pkg() == nil {
+		return
+	}
+	n, ok := types.Unalias(c.Type()).(*types.Named)
+	if !ok || !structOK(n) {
+		return
+	}
+	b := basicOf(n)
+	if b == nil || b.Info()&types.IsInteger == 0 {
+		return
+	}
+	t.g.consts["K_"+c.Pkg().Name()+"_"+c.Name()] = t.g.leanType(n) + " := " + val
 }
